@@ -75,6 +75,10 @@ func runC12(c *fw.Ctx, cs fw.Case) {
 				bud /= 6
 			}
 			depth := depthFor(n0, n1, bud, 5)
+			if cfg.quiet && r.Intn(3) == 0 {
+				depth = 0 // the root itself is the horizon: the whole search is one (interruptible) quiescence search
+				c.Count("depth0_searches", 1)
+			}
 			s, _, _ := cfg.mk()
 			useTT := cfg.posDetermined
 			variant := r.Intn(7)
@@ -386,7 +390,7 @@ func init() {
 			return l
 		},
 		Floors: func(string) map[string]int64 {
-			return map[string]int64{"halts": 5000, "followups": 2000, "searches_fully_enumerated": 10, "halts_minimax": 500, "halts_quiet": 200, "async_halts": 100, "async_followups": 40}
+			return map[string]int64{"halts": 5000, "followups": 2000, "searches_fully_enumerated": 10, "halts_minimax": 500, "halts_quiet": 200, "async_halts": 100, "async_followups": 40, "depth0_searches": 3}
 		},
 		Run: runC12,
 	})
